@@ -638,6 +638,19 @@ def case_from_line(line, flavour="plain", tags=()):
         am = tok[1] == "1"
         o1, o2 = obj_mesh_oracle(g, am), obj_points_oracle(g, am)
         c = Case(line, expect=expect_rt, oracle=lambda h, cs: o1(h, cs) or o2(h, cs), flavour=flavour, tags=tags)
+    elif op in ("obj_rth", "ply_rth"):
+        # history on ONE encoder object: geometry A first, then geometry B; the result for B is held to the same
+        # standard as a fresh encoder's (model line and oracles = the plain op on B)
+        sep = tok.index("--")
+        btok = [op[:-1], tok[1]] + tok[sep + 1:]
+        g, _ = G.parse_geom(btok, 2)
+        am = tok[1] == "1"
+        if op == "obj_rth":
+            o1, o2 = obj_mesh_oracle(g, am), obj_points_oracle(g, am)
+            orc = lambda h, cs: o1(h, cs) or o2(h, cs)
+        else:
+            orc = ply_oracle(g, am)
+        c = Case(line, model=" ".join(btok), expect=expect_rt, oracle=orc, flavour=flavour, tags=tags)
     elif op in ("stl_dec", "ply_dec", "obj_dec"):
         c = Case(line, expect=expect_dec, flavour=flavour, tags=tags)
     elif op == "obj_nums":
@@ -824,6 +837,14 @@ def generate(rng, tier):
         if rng.random() < 0.1:      # a mesh file read as a point cloud and vice versa (correspondence only)
             cases.append(case_from_line(f"ply_rt {1 - am} " + t, fl, ("ply", "cross_read")))
             cases.append(case_from_line(f"obj_rt {1 - am} " + t, fl, ("obj", "cross_read")))
+    # ---- 1b. histories: one encoder object writes another geometry first (mesh then cloud, cloud then mesh, …)
+    for i in range(600 if thorough else 120):
+        ga = refill(rng, rand_geom(rng, tier), boundary_byte=False)
+        gb = refill(rng, rand_geom(rng, tier), boundary_byte=False)
+        am = 1 if gb.is_mesh else 0
+        op = "obj_rth" if i % 2 == 0 else "ply_rth"
+        cases.append(case_from_line(f"{op} {am} {ga.to_text()} -- {gb.to_text()}", "asan" if i % 4 == 0 else "plain",
+                                    (op, "history:" + ("mesh" if ga.is_mesh else "pc") + "->" + ("mesh" if gb.is_mesh else "pc"))))
     # ---- 2. geometries outside the property's domain (other types / several attributes of a kind / no position):
     #         correspondence, and the oracles wherever the theorems' hypotheses hold
     for i in range(1500 if thorough else 300):
